@@ -54,7 +54,7 @@ def corpus_strategy(draw: Any, item: dict, tier: str) -> Any:
 
 def chain_template(draw: Any) -> tuple:
     """one of the chain-emitting templates"""
-    fn = draw(st.sampled_from([templates.symmetry_program, templates.minmax_chains_program, templates.sum_chains_program, templates.sum_chains_program, templates.cleanup_program, templates.unused_program]))
+    fn = draw(st.sampled_from([templates.dependency_program, templates.dependency_program, templates.dependency_program, templates.symmetry_program, templates.minmax_chains_program, templates.sum_chains_program, templates.cleanup_program, templates.unused_program]))
     return fn(draw)
 
 
